@@ -194,261 +194,6 @@ func implNames(dc *diskCtx) string {
 	return strings.Join(s, ", ")
 }
 
-func (dc *diskCtx) ruleGuards(r *Report, im *diskImpl) {
-	p := dc.p
-	bs := fmt.Sprint(dc.blockSize)
-	for _, mn := range []string{"ReadTo", "Write", "Read"} {
-		f := im.Methods[mn]
-		if f == nil {
-			r.Anchor("R09a", im.Name+"."+mn)
-			continue
-		}
-		r.Func(FuncName(f))
-		addr := firstUintParam(f)
-		bufs := byteSliceParams(f)
-		fm := p.Rels(f)
-		nAccess := 0
-		p.instrs(f, func(b *ssa.BasicBlock, i int, in ssa.Instruction) {
-			rs := p.RelsAt(fm, in)
-			// in-memory storage access
-			if ia, ok := in.(*ssa.IndexAddr); ok && dc.isBlockStorage(ia.X.Type()) {
-				nAccess++
-				r.Sites++
-				idx := sk(ia.Index)
-				key := fmt.Sprintf("%s.%s block-index", im.Name, mn)
-				want := idx + " < " + im.SizeKey
-				r.Check("R09a", key+" range", instrPos(in), rs[want],
-					fmt.Sprintf("index %s into block storage requires fact `%s` on every path; facts here: %v", idx, want, relList(rs)))
-				r.Check("R09b", key+" is-address", instrPos(in), addr != nil && stripConv(ia.Index) == ssa.Value(addr),
-					fmt.Sprintf("index expression is %s, must be the address parameter unmodified", idx))
-				// whole-block copy
-				for _, u := range aliasUses(ia) {
-					if sl, ok := u.V.(*ssa.Slice); ok && u.In != nil {
-						_ = sl
-					}
-				}
-				for _, rf := range refs(ia) {
-					if sl, ok := rf.(*ssa.Slice); ok {
-						r.Check("R09b", key+" whole-block", instrPos(sl), sl.Low == nil && sl.High == nil && sl.Max == nil,
-							"the block is re-sliced with bounds; a partial block would be read/written")
-					}
-				}
-			}
-			// file access
-			if c, name, ok := unixCall(in); ok && (name == "Pread" || name == "Pwrite") {
-				nAccess++
-				r.Sites++
-				key := fmt.Sprintf("%s.%s %s", im.Name, mn, name)
-				if addr == nil || len(c.Call.Args) != 3 {
-					r.Unknown("R09a", key, instrPos(in), "no address parameter / unexpected arity")
-					return
-				}
-				want := addr.Name() + " < " + im.SizeKey
-				r.Check("R09a", key+" range", instrPos(in), rs[want],
-					fmt.Sprintf("requires fact `%s` on every path to the syscall; facts here: %v", want, relList(rs)))
-				buf := c.Call.Args[1]
-				lenWant := eqRel("uint64(len("+sk(buf)+"))", bs)
-				r.Check("R09a", key+" size", instrPos(in), rs[lenWant],
-					fmt.Sprintf("requires fact `%s` on every path to the syscall; facts here: %v", lenWant, relList(rs)))
-				isParam := false
-				for _, bp := range bufs {
-					if buf == ssa.Value(bp) {
-						isParam = true
-					}
-				}
-				r.Check("R09b", key+" buffer", instrPos(in), isParam, "the transferred buffer is "+sk(buf)+", must be the caller's buffer parameter unmodified")
-				// offset = int64(addr * BlockSize) (seen through helper calls)
-				offKey := sk(c.Call.Args[2])
-				okOff := false
-				a := addr.Name()
-				for _, w := range []string{"int64((" + a + " * " + bs + "))", "int64((" + bs + " * " + a + "))"} {
-					if offKey == w {
-						okOff = true
-					}
-				}
-				for sh := uint(1); sh < 63; sh++ {
-					if uint64(1)<<sh == dc.blockSize && offKey == fmt.Sprintf("int64((%s << %d))", a, sh) {
-						okOff = true
-					}
-				}
-				r.Check("R09b", key+" offset", instrPos(in), okOff,
-					fmt.Sprintf("offset is %s, must be int64(%s*%s)", sk(c.Call.Args[2]), addr.Name(), bs))
-			}
-			// any other positioned/unpositioned I/O on the descriptor is outside the register model
-			if _, name, ok := unixCall(in); ok {
-				switch name {
-				case "Pread", "Pwrite", "Fsync", "Close", "Open", "Fstat", "Ftruncate":
-				default:
-					r.Fail("R09a", fmt.Sprintf("%s.%s unix.%s", im.Name, mn, name), instrPos(in),
-						"system call outside the positioned-I/O set {Pread,Pwrite}: offset-relative or other I/O is not covered by the range/size guards", "")
-				}
-			}
-		})
-		// Write must refuse wrong-sized buffers before modifying anything
-		if mn == "Write" {
-			var stores []ssa.Instruction
-			p.instrs(f, func(b *ssa.BasicBlock, i int, in ssa.Instruction) {
-				if c, ok := in.(*ssa.Call); ok {
-					if bi, ok := c.Call.Value.(*ssa.Builtin); ok && bi.Name() == "copy" {
-						stores = append(stores, in)
-					}
-				}
-			})
-			for _, st := range stores {
-				c := st.(*ssa.Call)
-				src := c.Call.Args[1]
-				rs := p.RelsAt(fm, st)
-				lenWant := eqRel("uint64(len("+sk(src)+"))", bs)
-				r.Check("R09a", fmt.Sprintf("%s.Write copy size", im.Name), instrPos(st), rs[lenWant],
-					fmt.Sprintf("storing a block requires fact `%s`; facts here: %v", lenWant, relList(rs)))
-				isParam := false
-				for _, bp := range bufs {
-					if src == ssa.Value(bp) {
-						isParam = true
-					}
-				}
-				r.Check("R09b", fmt.Sprintf("%s.Write copy source", im.Name), instrPos(st), isParam, "the stored data is "+sk(src)+", must be the caller's block unmodified")
-			}
-		}
-		if mn != "Read" && nAccess == 0 {
-			r.Unknown("R09a", fmt.Sprintf("%s.%s access", im.Name, mn), f.Pos(), "no block-storage access recognised in this method (neither in-memory index nor pread/pwrite)")
-		}
-		if mn == "Read" {
-			dc.ruleReadFresh(r, im, f)
-		}
-	}
-}
-
-// ruleReadFresh: Read returns a slice allocated in Read; storage reaches it only through a sibling ReadTo/copy.
-func (dc *diskCtx) ruleReadFresh(r *Report, im *diskImpl, f *ssa.Function) {
-	dc.p.instrs(f, func(b *ssa.BasicBlock, i int, in ssa.Instruction) {
-		ret, ok := in.(*ssa.Return)
-		if !ok || len(ret.Results) != 1 {
-			return
-		}
-		fresh := true
-		var what []string
-		for _, o := range origins(ret.Results[0]) {
-			switch x := o.(type) {
-			case *ssa.Alloc:
-				if !x.Heap {
-					fresh = false
-				}
-				what = append(what, "alloc")
-			case *ssa.MakeSlice:
-				what = append(what, "make")
-			default:
-				fresh = false
-				what = append(what, sk(o))
-			}
-		}
-		r.Check("R09c", im.Name+".Read result-fresh", instrPos(in), fresh,
-			fmt.Sprintf("returned slice originates from %v; must be a slice allocated in Read itself", what))
-		// the fresh buffer must have BlockSize length
-		if sl, ok := ret.Results[0].(*ssa.Slice); ok {
-			okLen := false
-			if a, ok := sl.X.(*ssa.Alloc); ok {
-				if at, ok := deref(a.Type()).Underlying().(*types.Array); ok && uint64(at.Len()) == dc.blockSize {
-					if sl.High == nil {
-						okLen = true
-					} else if h, ok := constUint(sl.High); ok && h == dc.blockSize {
-						okLen = true
-					}
-				}
-			}
-			r.Check("R09b", im.Name+".Read result-size", instrPos(in), okLen, "Read must return a buffer of exactly BlockSize bytes")
-		} else if ms, ok := ret.Results[0].(*ssa.MakeSlice); ok {
-			n, okc := constUint(stripConv(ms.Len))
-			r.Check("R09b", im.Name+".Read result-size", instrPos(in), okc && n == dc.blockSize, "Read must return a buffer of exactly BlockSize bytes")
-		}
-		// and it must be filled through the guarded path: passed to the sibling ReadTo with the address parameter
-		addr := firstUintParam(f)
-		filled := false
-		for _, u := range aliasUses(ret.Results[0]) {
-			if c, ok := u.In.(*ssa.Call); ok {
-				if cal := calleeOf(&c.Call); cal != nil && cal == im.Methods["ReadTo"] {
-					for _, a := range c.Call.Args {
-						if addr != nil && a == ssa.Value(addr) {
-							filled = true
-						}
-					}
-				}
-			}
-		}
-		r.Check("R09b", im.Name+".Read delegates", instrPos(in), filled, "Read must fill its fresh buffer by calling the sibling ReadTo with the unmodified address parameter")
-	})
-}
-
-func (dc *diskCtx) ruleOwnership(r *Report, im *diskImpl) {
-	p := dc.p
-	var names []string
-	for n := range im.Methods {
-		names = append(names, n)
-	}
-	sort.Strings(names)
-	for _, mn := range names {
-		f := im.Methods[mn]
-		for _, bp := range byteSliceParams(f) {
-			bad := []string{}
-			for _, u := range aliasUses(bp) {
-				switch {
-				case u.Kind == "len#0", u.Kind == "cap#0", u.Kind == "copy#0", u.Kind == "copy#1":
-				case strings.HasPrefix(u.Kind, "call:golang.org/x/sys/unix.Pread#1"), strings.HasPrefix(u.Kind, "call:golang.org/x/sys/unix.Pwrite#1"):
-				case u.Kind == "load", u.Kind == "slice-bound", u.Kind == "index":
-				case strings.HasPrefix(u.Kind, "call:"):
-					// sibling method of the same implementation: the callee's parameter is checked there
-					if c, ok := u.In.(ssa.CallInstruction); ok {
-						if cal := calleeOf(c.Common()); cal != nil && dc.isSibling(im, cal) {
-							continue
-						}
-					}
-					bad = append(bad, u.Kind+" at "+p.Pos(instrPos(u.In)))
-				default:
-					bad = append(bad, u.Kind+" at "+p.Pos(instrPos(u.In)))
-				}
-			}
-			r.Check("R09c", fmt.Sprintf("%s.%s param %s", im.Name, mn, bp.Name()), bp.Pos(), len(bad) == 0,
-				"caller-owned slice escapes or is used outside {len, copy, pread/pwrite, sibling method}: "+strings.Join(bad, "; "))
-		}
-		// internal storage: any value of block-storage type or derived element pointers
-		p.instrs(f, func(b *ssa.BasicBlock, i int, in ssa.Instruction) {
-			v, ok := in.(ssa.Value)
-			if !ok || !dc.isBlockStorage(v.Type()) {
-				return
-			}
-			if _, isLoad := in.(*ssa.UnOp); !isLoad {
-				if _, isField := in.(*ssa.Field); !isField {
-					return
-				}
-			}
-			bad := []string{}
-			for _, u := range aliasUses(v) {
-				switch u.Kind {
-				case "len#0", "cap#0", "copy#0", "copy#1", "load", "index", "slice-bound":
-				case "store-addr":
-					// writing a byte through an element pointer: only inside Write (lock rule covers mode)
-					if mn != "Write" {
-						bad = append(bad, "store through storage pointer in "+mn)
-					}
-				default:
-					bad = append(bad, u.Kind+" at "+p.Pos(instrPos(u.In)))
-				}
-			}
-			r.Check("R09c", fmt.Sprintf("%s.%s storage", im.Name, mn), instrPos(in), len(bad) == 0,
-				"internal block storage is exposed (returned, stored elsewhere or passed on): "+strings.Join(bad, "; "))
-		})
-	}
-}
-
-func (dc *diskCtx) isSibling(im *diskImpl, f *ssa.Function) bool {
-	for _, m := range im.Methods {
-		if m == f {
-			return true
-		}
-	}
-	return false
-}
-
 func (dc *diskCtx) ruleImmutable(r *Report) {
 	p := dc.p
 	// stores to fields of implementation structs, per function
@@ -525,83 +270,6 @@ func (dc *diskCtx) ruleZeroInit(r *Report) {
 	if !found {
 		r.Unknown("R09h", "storage init", token.NoPos, "no constructor stores a block array")
 	}
-}
-
-func (dc *diskCtx) ruleWrappers(r *Report) {
-	p := dc.p
-	for i := 0; i < dc.iface.NumMethods(); i++ {
-		mn := dc.iface.Method(i).Name()
-		f := p.Func(diskPkg, mn)
-		if f == nil {
-			continue // not every method has a package-level wrapper (ReadTo, Close)
-		}
-		r.Func(FuncName(f))
-		dc.checkForwarder(r, "R09g", f, mn, true)
-	}
-}
-
-// checkForwarder: f's body is `return <global disk>.mn(params...)`.
-func (dc *diskCtx) checkForwarder(r *Report, rule string, f *ssa.Function, mn string, viaGlobal bool) {
-	key := "wrapper " + FuncName(f)
-	var calls []ssa.CallInstruction
-	var rets []*ssa.Return
-	other := 0
-	for _, b := range f.Blocks {
-		for _, in := range b.Instrs {
-			switch x := in.(type) {
-			case *ssa.Call:
-				calls = append(calls, x)
-			case *ssa.Return:
-				rets = append(rets, x)
-			case *ssa.UnOp, *ssa.DebugRef, *ssa.ChangeType, *ssa.Extract:
-			default:
-				other++
-			}
-		}
-	}
-	if len(f.Blocks) != 1 || len(calls) != 1 || len(rets) != 1 || other != 0 {
-		r.Fail(rule, key, f.Pos(), fmt.Sprintf("wrapper is not a single forwarding call (blocks=%d calls=%d returns=%d other instructions=%d)", len(f.Blocks), len(calls), len(rets), other), "")
-		return
-	}
-	c := calls[0].Common()
-	ok := true
-	why := ""
-	if viaGlobal {
-		if !c.IsInvoke() || c.Method.Name() != mn {
-			ok, why = false, "does not invoke "+mn+" on the global disk"
-		} else if ld, isLoad := c.Value.(*ssa.UnOp); !isLoad {
-			ok, why = false, "receiver is not the global disk"
-		} else if g, isG := ld.X.(*ssa.Global); !isG || !types.Identical(deref(g.Type()), dc.ifaceNamed()) {
-			ok, why = false, "receiver is not the global disk"
-		}
-	}
-	if ok {
-		if len(c.Args) != len(f.Params) {
-			ok, why = false, "argument count differs from parameter count"
-		} else {
-			for i, a := range c.Args {
-				if a != ssa.Value(f.Params[i]) {
-					ok, why = false, fmt.Sprintf("argument %d is %s, not parameter %s", i, sk(a), f.Params[i].Name())
-				}
-			}
-		}
-	}
-	if ok {
-		res := rets[0].Results
-		if f.Signature.Results().Len() == 1 {
-			if len(res) != 1 || stripConv(res[0]) != calls[0].Value() {
-				ok, why = false, "does not return the callee's result"
-			}
-		} else if f.Signature.Results().Len() > 1 {
-			for i, rv := range res {
-				ex, isEx := rv.(*ssa.Extract)
-				if !isEx || ex.Tuple != calls[0].Value() || ex.Index != i {
-					ok, why = false, "does not return the callee's results in order"
-				}
-			}
-		}
-	}
-	r.Check(rule, key, f.Pos(), ok, why)
 }
 
 func (dc *diskCtx) ruleAsync(r *Report) {
